@@ -328,7 +328,8 @@ class Interp:
                 out |= self.tags(st, k.value)
             if isinstance(fn, ast.Attribute) and name in ('_emit', 'emit'):
                 out |= frozenset({'emit@%d' % n.lineno})
-            if isinstance(fn, ast.Attribute) and name in MUT_TAKE and name != 'clear':
+            if isinstance(fn, ast.Attribute) and name in MUT_TAKE and name != 'clear' \
+                    and not (name in ('get', 'get_nowait') and n.args):
                 fld = self_field(fn.value)
                 if fld is not None:
                     out |= frozenset({'take:%s@%d' % (fld, n.lineno)})
@@ -492,6 +493,9 @@ class Interp:
                             {'node': n, 'sub': isinstance(recv, ast.Subscript),
                              'vshape': self.shape(st, n.args[-1]) if n.args else OTHER,
                              'value': n.args[-1] if n.args else None}))
+        elif recv_field is not None and name in ('get', 'get_nowait') and n.args:
+            # dict.get(key[, default]) is a read, not a removal (queue.get() takes no positional argument)
+            self.add(st, Ev('RD', line, recv_field, None, 'get', {'node': n}))
         elif recv_field is not None and name in MUT_TAKE:
             self.forget(st, 'self.' + recv_field)
             self.add(st, Ev('TK', line, recv_field, None, name,
